@@ -22,3 +22,29 @@ fn second_flush_cycle_is_correctly_framed_in_length_prefixed_mode() {
     assert_eq!(&f[..4], &((f.len() - 4) as u32).to_le_bytes()[..], "length prefix of the second cycle");
     assert_eq!(&f[4..], b"b:2|c\n");
 }
+
+// "after a flush the writer is as good as new", also when the payload iterator is dropped EARLY (the forwarder does that when
+// there are too many payloads): whatever was not handed out is gone with the flush, and the next cycle contains exactly what
+// is written after it -- each as one complete message of its own.
+#[test]
+fn a_flush_that_is_dropped_early_still_leaves_a_fresh_writer() {
+    for with_prefix in [false, true] {
+        let mut w = PayloadWriter::new(10, with_prefix);           // small limit: one metric per payload
+        for (n, v) in [("aa", 1u64), ("bb", 2), ("cc", 3)] {
+            assert!(!w.write_counter(&Key::from_name(n), v, None, None, &[]).any_failures());
+        }
+        {
+            let mut p = w.payloads();
+            assert!(p.next_payload().is_some());                  // only the first of three is taken ...
+        }                                                         // ... and the flush ends here
+        assert!(!w.write_counter(&Key::from_name("dd"), 4, None, None, &[]).any_failures(), "the next metric fits a fresh writer");
+        let mut p = w.payloads();
+        let f = p.next_payload().expect("the metric written after the flush").to_vec();
+        let body = if with_prefix {
+            assert_eq!(&f[..4], &((f.len() - 4) as u32).to_le_bytes()[..], "length prefix");
+            f[4..].to_vec()
+        } else { f };
+        assert_eq!(body, b"dd:4|c\n".to_vec(), "exactly the metric written after the flush, as one message of its own");
+        assert!(p.next_payload().is_none());
+    }
+}
